@@ -93,6 +93,14 @@ def run(ctx):
         few = rnd.sample(UNIVERSE, 3)
         objs = [{'v': rnd.choice(few if rnd.random() < 0.6 else UNIVERSE), 'i': j} for j in range(rnd.choice([0, 2, 5, 12, 33, 40]))]
         c = mkcase('B%d' % i, lib.new_cfg(select=['(sort_by . .v)=s']), gen.jdump(objs)); cases.append(c); meta[c['id']] = ('sort_by', objs)
+        # objects: members sorted by value / by a key of the value / by name; ties keep their arrival order (member names arrive unsorted)
+        names = rnd.sample(['zeta', 'alpha', 'mid', 'b', 'a', 'é', 'Z', 'k10', 'k2', '', 'beta', 'Alpha'], rnd.choice([0, 2, 5, 9, 12]))
+        few2 = rnd.sample(UNIVERSE, 3)
+        obj = {nm: rnd.choice(few2 if rnd.random() < 0.7 else UNIVERSE) for nm in names}
+        c = mkcase('OV%d' % i, lib.new_cfg(select=['(sort_by_values .)=s'], json_opts=('consise', True)), gen.jdump(obj)); cases.append(c); meta[c['id']] = ('obj_values', obj)
+        c = mkcase('OK%d' % i, lib.new_cfg(select=['(sort_by_keys .)=s'], json_opts=('consise', True)), gen.jdump(obj)); cases.append(c); meta[c['id']] = ('obj_keys', obj)
+        objw = {nm: {'w': obj[nm], 'n': j} for j, nm in enumerate(names)}
+        c = mkcase('OB%d' % i, lib.new_cfg(select=['(sort_by_values_by . .w)=s'], json_opts=('consise', True)), gen.jdump(objw)); cases.append(c); meta[c['id']] = ('obj_values_by', objw)
     if ctx['tier'] == 'thorough':
         for t, (a, b, cc) in enumerate(itertools.product(UNIVERSE, repeat=3)):
             if t % 7: continue
@@ -110,6 +118,14 @@ def run(ctx):
         elif m[0] == 'sort':
             got = json.loads(rows(a['stdout'])[0])['s']; exp = sorted(m[1], key=functools.cmp_to_key(cmp))
             if got != exp: violations.append(viol(c, '(sort list) is the stable sort under the total order', json.dumps(got)[:700], json.dumps(exp)[:700]))
+        elif m[0] in ('obj_values', 'obj_keys', 'obj_values_by'):
+            got = list(json.loads(rows(a['stdout'])[0], object_pairs_hook=lambda p: p)[0][1]) if rows(a['stdout']) and rows(a['stdout'])[0] != b'{}' else []
+            items = list(m[1].items())
+            if m[0] == 'obj_values': exp = sorted(items, key=functools.cmp_to_key(lambda x, y: cmp(x[1], y[1])))
+            elif m[0] == 'obj_keys': exp = sorted(items, key=lambda x: [ord(ch) for ch in x[0]])
+            else: exp = sorted(items, key=functools.cmp_to_key(lambda x, y: cmp(x[1]['w'], y[1]['w'])))
+            gotn = [k for k, _ in got]; expn = [k for k, _ in exp]
+            if gotn != expn: violations.append(viol(c, 'members of an object sorted (%s) under the total order, ties in arrival order' % m[0], json.dumps(gotn), json.dumps(expn)))
         elif m[0] == 'sort_by':
             got = json.loads(rows(a['stdout'])[0])['s']; exp = sorted(m[1], key=functools.cmp_to_key(lambda x, y: cmp(x['v'], y['v'])))
             if got != exp: violations.append(viol(c, '(sort_by list key) is the stable sort by key under the total order', json.dumps(got)[:700], json.dumps(exp)[:700]))
